@@ -112,8 +112,9 @@ def runIndex (w k : Nat) (sparse : Bool) (maxocc mincount : Int) (self : Bool) (
       let rep := kmQuery m idx rank (seqs.length - 1) q
       s!"len={idx.len} m={showMatch rep} f={showMatch (filterMinCount rep mincount)}"
 
-def run (line : String) : String :=
-  match words line with
+/-- one sequential operation (the words of its case line) -/
+def runWords (ws : List String) : String :=
+  match ws with
   | ["e4", s] =>
     match unhex s with
     | some s => hexCodes (encode4mer (s.map lower))
@@ -159,5 +160,70 @@ def run (line : String) : String :=
     | some k, some reads => if k < 1 ∨ k > 32 then "bad-op" else runGraph k reads
     | _, _ => "bad-op"
   | _ => "bad-op"
+
+/-- the word list cut at the `|` words -/
+def splitBar : List String → List String → List (List String)
+  | [], cur => [cur.reverse]
+  | w :: t, cur => if w = "|" then cur.reverse :: splitBar t [] else splitBar t (w :: cur)
+
+/-- a query of a `kq` sub-case: `@j` = reference `j` itself (obikmersim --self), otherwise a fresh record -/
+def kqQuery (refs : List (List UInt8)) (q : String) : Option (Nat × List UInt8) :=
+  match q.toList with
+  | '@' :: d =>
+    match (String.ofList d).toNat? with
+    | some j => if j < refs.length ∧ toString j = String.ofList d then some (j, refs.getD j []) else none
+    | none => none
+  | _ => (unhex q).map fun s => (refs.length, s.map lower)
+
+/-- `kq`: ONE index (`NewKmerMap(refs, k, sparse, maxocc)`), `Len`, then `Query` + `FilterMinCount(mincount)` for every
+query.  The address ranks are the identity: `query_any_exact` / `query_limited_exact` prove the answer independent of them. -/
+def runKq (w k : Nat) (sparse : Bool) (maxocc mincount : Int) (refs : List (List UInt8))
+    (qs : List (Nat × List UInt8)) : String :=
+  match newKmerMap w k sparse with
+  | .error _ => "panic"
+  | .ok m =>
+    let idx := newIndex m maxocc refs
+    let one := fun (q : Nat × List UInt8) =>
+      let rep := kmQuery m idx id q.1 q.2
+      s!"m={showMatch rep} f={showMatch (filterMinCount rep mincount)}"
+    s!"len={idx.len} " ++ " / ".intercalate (qs.map one)
+
+/-- a sub-case of `conc`: the sequential operations whose answer does not depend on the run, and `kq` -/
+def runSub (ws : List String) : String :=
+  match ws with
+  | "kq" :: w :: k :: sp :: mo :: mc :: nref :: rest =>
+    match w.toNat?, k.toNat?, mo.toInt?, mc.toInt?, nref.toNat? with
+    | some w, some k, some mo, some mc, some nref =>
+      if (w ≠ 64 ∧ w ≠ 128 ∧ w ≠ 256) ∨ k < 1 ∨ k > 200 ∨ (sp ≠ "0" ∧ sp ≠ "1") ∨ mo < -1 ∨ mo > 1000000
+          ∨ mc < -1000000 ∨ mc > 1000000 ∨ rest.length < nref + 1 then "bad-op" else
+        match (rest.take nref).mapM unhex with
+        | none => "bad-op"
+        | some refs =>
+          let refs := refs.map fun s => s.map lower
+          match (rest.drop nref).mapM (kqQuery refs) with
+          | none => "bad-op"
+          | some qs => runKq w k (sp == "1") mo mc refs qs
+    | _, _, _, _, _ => "bad-op"
+  | op :: _ => if op = "e4" ∨ op = "c4" ∨ op = "nk" ∨ op = "g" ∨ op = "gf" then runWords ws else "bad-op"
+  | [] => "bad-op"
+
+def runLine (ws : List String) : String :=
+  match ws with
+  | "conc" :: g :: r :: "|" :: rest =>
+    -- the answers of the sub-cases run one after the other (the sequential model); the harness demands the same answer
+    -- from every call made by g goroutines at the same time
+    match g.toNat?, r.toNat? with
+    | some g, some r =>
+      let rs := (splitBar rest []).map runSub
+      if g < 1 ∨ g > 64 ∨ r < 1 ∨ r > 50 ∨ rs.length > 32 ∨ rs.contains "bad-op" then "bad-op"
+      else " ; ".intercalate rs
+    | _, _ => "bad-op"
+  | ws => runWords ws
+
+/-- `race conc …`: the same case replayed by the harness through a `go build -race` build; same answer -/
+def run (line : String) : String :=
+  match words line with
+  | "race" :: "conc" :: rest => runLine ("conc" :: rest)
+  | ws => runLine ws
 
 end ObiVerif.Driver.C19
